@@ -34,6 +34,10 @@ func odtHeading(name, feat, style string, level int, spanMid bool) odtKind {
 	if feat != "" {
 		feats = []string{feat}
 	}
+	attr := level
+	if level < 0 { // attribute omitted: ODF default 1
+		attr, level = 0, 1
+	}
 	return odtKind{name, feats, func(g *gen, o odtOpt) ([]odtw.Block, []xBlock) {
 		a, b := g.tok(), g.tok()
 		if spanMid {
@@ -41,7 +45,7 @@ func odtHeading(name, feat, style string, level int, spanMid bool) odtKind {
 			h := odtw.Heading{Style: style, Level: level, Content: []odtw.Inline{odtw.Text(a + " "), odtw.Span{Style: "T1", Content: []odtw.Inline{odtw.Text(b)}}, odtw.Text(" " + c)}}
 			return []odtw.Block{h}, []xBlock{{kind: kHeading, level: level, feat: feat, atoms: []atom{tk(a), ws("text-space"), tkf(b, feat), ws("text-space"), tkf(c, feat)}}}
 		}
-		h := odtw.Heading{Style: style, Level: level, Content: []odtw.Inline{odtw.Text(a + " " + b)}}
+		h := odtw.Heading{Style: style, Level: attr, Content: []odtw.Inline{odtw.Text(a + " " + b)}}
 		return []odtw.Block{h}, []xBlock{{kind: kHeading, level: level, feat: feat, atoms: []atom{tk(a), ws("text-space"), tk(b)}}}
 	}}
 }
@@ -110,6 +114,12 @@ func odtAlphabet() []odtKind {
 		odtHeading("hc", "", "P1", 2, false), // automatic style P1, parent Heading_20_2
 		odtHeading("ho", "", "", 3, false),
 		odtHeading("hspan", "heading-span-mixed", "Heading_20_1", 1, true),
+		// style parent chains that carry two different default-outline-levels: the heading's own
+		// text:outline-level (equal to its own / nearest style's level) is the authored level
+		odtHeading("hown", "heading-own-vs-parent", "Sect", 3, false),   // Sect: level 3, parent Heading_20_1
+		odtHeading("hup", "heading-own-vs-parent", "Chap", 1, false),    // Chap: level 1, parent Heading_20_3
+		odtHeading("hchain", "heading-own-vs-parent", "P3", 3, false),   // automatic P3 -> Sect (3) -> Heading_20_1 (1)
+		odtHeading("hupna", "heading-own-vs-parent", "Chap", -1, false), // no text:outline-level: ODF default 1 = the style's own level 1
 		{"lb0", nil, func(g *gen, o odtOpt) ([]odtw.Block, []xBlock) {
 			a, b := g.tok(), g.tok()
 			l := odtw.List{Style: "L1", Items: []odtw.Item{item(odtw.P(a)), item(odtw.P(b))}}
@@ -188,6 +198,42 @@ func odtAlphabet() []odtKind {
 			xt := &xTable{3, 2, []xCell{{0, 0, 2, 1, pa}, {0, 1, 1, 1, pb}, {1, 1, 1, 1, pc}, {2, 0, 1, 1, pd}, {2, 1, 1, 1, pe}}}
 			return []odtw.Block{t}, []xBlock{{kind: kTable, tbl: xt, feat: "rowspan"}}
 		}},
+		{"tblk", []string{"block-merge"}, func(g *gen, o odtOpt) ([]odtw.Block, []xBlock) {
+			// row 1: [A 2 columns x 2 rows][covered][B]
+			// row 2: [covered][covered][C]
+			// row 3: [D][E][F]
+			a, pa := odtCell(g, 1)
+			a.ColSpan, a.RowSpan = 2, 2
+			b, pb := odtCell(g, 1)
+			c, pc := odtCell(g, 1)
+			d, pd := odtCell(g, 1)
+			e, pe := odtCell(g, 1)
+			f, pf := odtCell(g, 1)
+			cov := odtw.Cell{Covered: true}
+			t := odtw.Table{Cols: 3, Rows: []odtw.Row{{Cells: []odtw.Cell{a, cov, b}}, {Cells: []odtw.Cell{cov, cov, c}}, {Cells: []odtw.Cell{d, e, f}}}}
+			xt := &xTable{3, 3, []xCell{{0, 0, 2, 2, pa}, {0, 2, 1, 1, pb}, {1, 2, 1, 1, pc}, {2, 0, 1, 1, pd}, {2, 1, 1, 1, pe}, {2, 2, 1, 1, pf}}}
+			return []odtw.Block{t}, []xBlock{{kind: kTable, tbl: xt, feat: "block-merge"}}
+		}},
+		{"tblk4", []string{"block-merge"}, func(g *gen, o odtOpt) ([]odtw.Block, []xBlock) {
+			// row 1: [X][A 2x2][covered][B]
+			// row 2: [Y][covered][covered][C]
+			// row 3: [D][E][F][G]
+			x, px := odtCell(g, 1)
+			a, pa := odtCell(g, 1)
+			a.ColSpan, a.RowSpan = 2, 2
+			b, pb := odtCell(g, 1)
+			y, py := odtCell(g, 1)
+			c, pc := odtCell(g, 1)
+			d, pd := odtCell(g, 1)
+			e, pe := odtCell(g, 1)
+			f, pf := odtCell(g, 1)
+			gg, pg := odtCell(g, 1)
+			cov := odtw.Cell{Covered: true}
+			t := odtw.Table{Cols: 4, Rows: []odtw.Row{{Cells: []odtw.Cell{x, a, cov, b}}, {Cells: []odtw.Cell{y, cov, cov, c}}, {Cells: []odtw.Cell{d, e, f, gg}}}}
+			xt := &xTable{3, 4, []xCell{{0, 0, 1, 1, px}, {0, 1, 2, 2, pa}, {0, 3, 1, 1, pb}, {1, 0, 1, 1, py}, {1, 3, 1, 1, pc},
+				{2, 0, 1, 1, pd}, {2, 1, 1, 1, pe}, {2, 2, 1, 1, pf}, {2, 3, 1, 1, pg}}}
+			return []odtw.Block{t}, []xBlock{{kind: kTable, tbl: xt, feat: "block-merge"}}
+		}},
 		{"tspanc", []string{"cell-span-mixed"}, func(g *gen, o odtOpt) ([]odtw.Block, []xBlock) {
 			a, b, c := g.tok(), g.tok(), g.tok()
 			p := odtw.Para{Content: []odtw.Inline{odtw.Text(a + " "), odtw.Span{Style: "T1", Content: []odtw.Inline{odtw.Text(b)}}, odtw.Text(" " + c)}}
@@ -232,12 +278,15 @@ func buildOdt(alpha []odtKind, seq []int, o odtOpt) odtCase {
 	}
 	auto := []odtw.Style{
 		{Name: "P1", Parent: "Heading_20_2", Italic: true},
+		{Name: "P3", Parent: "Sect", Italic: true},
 		{Name: "T1", Family: "text", Bold: true},
 		{Name: "T2", Family: "text", Italic: true},
 	}
 	c.opts.AutoStyles = auto
 	if o.styles {
-		c.opts.Styles = odtw.DefaultStyles()
+		c.opts.Styles = append(odtw.DefaultStyles(),
+			odtw.Style{Name: "Sect", Display: "Section Head", Parent: "Heading_20_1", Class: "text", OutlineLevel: 3},
+			odtw.Style{Name: "Chap", Display: "Chapter Head", Parent: "Heading_20_3", Class: "text", OutlineLevel: 1})
 		c.opts.ListStyles = odtw.DefaultListStyles()
 	} else {
 		c.opts.NoStylesPart = true
